@@ -185,6 +185,10 @@ def norm_under_pc(p):
     return p
 
 
+def norm_deep(p):
+    return simplify_gates(norm_under_pc(p))
+
+
 # -------------------------------------------------------------- evaluation
 def peval(p, env):
     """env: dict atom->0/1 for base atoms; gates evaluated on demand"""
@@ -532,22 +536,64 @@ def xor_solve(cons, want_model=False):
     return "sat", env
 
 
+def _gate_conjuncts(a, depth=0):
+    """conjuncts (normalised, affine over non-gate atoms) of the conjunction that atom `a` stands for, or None.
+    A plain atom stands for itself; an `and` gate for its conjuncts (nested conjunction gates are flattened)."""
+    gate = C.gates.get(a)
+    if gate is None:
+        return [norm_under_pc(pvar(a))]
+    if gate[0] != "and" or depth > 6:
+        return None
+    out = []
+    for q in gate[1]:
+        q = norm_under_pc(q)
+        if pis_affine(q) and not (patoms(q) & set(C.gates)):
+            out.append(q)
+            continue
+        if len(q) == 1:  # a monomial of atoms / gates: conjunction again
+            for b in next(iter(q)):
+                sub = _gate_conjuncts(b, depth + 1)
+                if sub is None:
+                    return None
+                out.extend(sub)
+            continue
+        return None
+    return out
+
+
 def as_linear_gate(p):
-    """p == g or g^1 for a gate g whose conjuncts are affine over non-gate atoms under the pc -> (negated, conjuncts)"""
+    """p == M or M^1 for a single monomial M of atoms / conjunction gates whose conjuncts are affine over non-gate atoms
+    under the pc -> (negated, conjuncts): p holds iff all conjuncts are 1 (negated: iff some conjunct is 0)"""
     core_p = p ^ ONE if ONE_M in p else p
     if len(core_p) != 1:
         return None
     m = next(iter(core_p))
-    if len(m) != 1:
+    if not m or not any(a in C.gates for a in m):
         return None
-    g = next(iter(m))
-    gate = C.gates.get(g)
-    if gate is None or gate[0] != "and":
-        return None
-    qs = [norm_under_pc(q) for q in gate[1]]
-    if not all(pis_affine(q) and not (patoms(q) & set(C.gates)) for q in qs):
-        return None
+    qs = []
+    for a in m:
+        sub = _gate_conjuncts(a)
+        if sub is None:
+            return None
+        qs.extend(sub)
     return (ONE_M in p), qs
+
+
+def simplify_gates(p):
+    """replace conjunction-gate atoms whose conjuncts are all decided by the path condition"""
+    if not C.gates or not any(a in C.gates for m in p for a in m):
+        return p
+    sub = {}
+    for a in patoms(p):
+        if a in C.gates and C.gates[a][0] == "and":
+            qs = _gate_conjuncts(a)
+            if qs is None:
+                continue
+            if any(not q for q in qs):
+                sub[a] = ZERO
+            elif all(q == ONE for q in qs):
+                sub[a] = ONE
+    return psubst(p, sub) if sub else p
 
 
 def entails_status(p):
@@ -588,7 +634,7 @@ def entails_status(p):
 
 def branch(p, site=None):
     """decide symbolic condition p (poly); forks when both outcomes are feasible"""
-    p = norm_under_pc(p)
+    p = norm_deep(p)
     st = entails_status(p)
     if st == "true":
         C.stats["forced"] += 1
